@@ -396,7 +396,9 @@ pub async fn start_env(cfg: &EnvCfg) -> Env {
 		},
 	});
 	let cfg_max = if matches!(cfg.assembly, Assembly::TowerSet | Assembly::TowerMw) { 77 } else { cfg.max };
-	let mut b = ServerConfig::builder().max_connections(cfg_max).set_message_buffer_capacity(cfg.buffer);
+	// (a small request limit so that an oversized message — the `junk` action — stays cheap; every call the
+	// scripts send is far below it)
+	let mut b = ServerConfig::builder().max_connections(cfg_max).set_message_buffer_capacity(cfg.buffer).max_request_body_size(JUNK_LIMIT);
 	if !cfg.http {
 		b = b.ws_only();
 	}
@@ -836,6 +838,9 @@ pub async fn read_ws_frame<R: tokio::io::AsyncRead + Unpin>(r: &mut R, buf: &mut
 }
 
 /// A masked client frame.
+/// `max_request_body_size` of every server of this environment
+pub const JUNK_LIMIT: u32 = 16 * 1024;
+
 pub fn ws_frame(opcode: u8, payload: &[u8]) -> Vec<u8> {
 	let mut f = Vec::with_capacity(payload.len() + 14);
 	f.push(0x80 | (opcode & 0x0f));
